@@ -70,7 +70,7 @@ pub fn synth(sig: &t::Signature, response: bool, thorough: bool) -> Result<Vec<I
         PayloadSize::NonZero => vec![true],
         PayloadSize::Any => vec![false, true],
     };
-    let ecn_encs: Vec<u8> = if q(Quirk::Ecn) { vec![1, 2] } else { vec![0] }; // 1 = TCP ECE|CWR, 2 = IP ECT
+    let ecn_encs: Vec<u8> = if q(Quirk::Ecn) { vec![1, 2, 3] } else { vec![0] }; // 1 = TCP ECE|CWR, 2 = IP ECT, 3 = both headers at once
     let mut out = vec![];
     for &v6 in &vers {
         for &mss in &msss {
@@ -151,7 +151,7 @@ pub fn synth(sig: &t::Signature, response: bool, thorough: bool) -> Result<Vec<I
                                     0x1234
                                 };
                                 let mut flags = if response { SYN | ACK } else { SYN };
-                                if ecn_enc == 1 {
+                                if ecn_enc & 1 != 0 {
                                     flags |= ECE | CWR;
                                 }
                                 if q(Quirk::Urg) {
@@ -183,7 +183,7 @@ pub fn synth(sig: &t::Signature, response: bool, thorough: bool) -> Result<Vec<I
                                     res: q(Quirk::MustBeZero),
                                     frag_off: 0,
                                     id,
-                                    ecn: if ecn_enc == 2 { 2 } else { 0 },
+                                    ecn: if ecn_enc & 2 != 0 { 2 } else { 0 },
                                     flow: if q(Quirk::FlowID) { 5 } else { 0 },
                                     flags,
                                     seq: if q(Quirk::SeqNumZero) { 0 } else { 1000 },
